@@ -18,7 +18,7 @@ from .. import rig as R, ref, gen, env
 from ..orch import h
 
 ID = "C19"
-TECHNIQUE = 'runtime monitoring - robustness probes after hostile frames / validly signed hostile events: handler must not raise, same connection and neighbours still served, no registry or task leak; a peer that stops reading; wedged-relay watchdog'
+TECHNIQUE = 'runtime monitoring - robustness probes after hostile frames / validly signed hostile events: handler must not raise, same connection and neighbours still served, no registry or task leak; a peer that stops reading; wedged-relay watchdog; bound on the delays the handler asks for after refused commands (recorded virtual sleeps); end-to-end shard on a real server: binary / fragmented / oversized / deeply nested messages, aborted connections with backlog, connect-abort storms, raw TCP garbage, HTTP paths, then probes of other connections, worker pid unchanged, registry dump (SIGUSR1) free of the ended connections subscriptions, server log free of escaped exceptions'
 LEVEL = "exploration"
 CRASH_IS_VIOLATION = True
 RULE = (
